@@ -122,6 +122,11 @@ def o08_4(tier):
                     c1, c2 = info["cells_of"][tuple(key)]
                     ctx.ensure(sorted(ctx.list_of(ctx.get(be, "own_cells"))) == sorted([c1, c2]), f"internal interface {i} separates exactly its two cells")
                     if len(e) > 2:
+                        first = ctx.list_of(ctx.get(be, "own_cells"))[0]
+                        cyc = cycles[first]
+                        dbl = cyc + cyc
+                        fwd = any(dbl[s:s + len(e)] == e for s in range(len(cyc)))
+                        ctx.ensure(fwd, f"internal interface {i} runs in the stored direction of its first listed cell (the convention the pressure row's sign rule relies on)")
                         got = ctx.callm(fr, "get_big_edge_by_cells", c1, c2)
                         ctx.ensure(ctx.get(got, "big_edge_id") == i, f"lookup by cells ({c1},{c2}) returns interface {i}")
                         got = ctx.callm(fr, "get_big_edge_by_cells", c2, c1)
